@@ -101,7 +101,6 @@ class Model:
         self.tokens = []
         self.by_event = {}
         self.dispatch = None
-        self.in_timed = 0
         self.listened = set()
         self.ign_events = {}
         self.now_event_names = set()
